@@ -275,11 +275,13 @@ def obligations(tier: str):
     t = 300 if tier == "quick" else 1200
     from vtools.corpus import SEEDS as ALL
 
-    seeds = SEEDS if tier == "quick" else ALL
+    seeds = SEEDS
     docs_main = ["ascii", "nonascii", "surrogate"]
     for j, (pre, suf) in enumerate(holes.hole_instances(seeds, replace=(1,) if tier == "quick" else (0, 1))):
         d = docs_main[j % 3]
-        obls.append({"id": "hole%04d.%s" % (j, d), "func": "h_cli", "params": {"prefix": pre, "suffix": suf, "k": 1, "doc": d, "via_file": j % 4 == 1, "encoding": "ascii" if j % 2 else "utf-8"}, "timeout": t})
+        obls.append({"id": "hole%04d.%s" % (j, d), "func": "h_cli", "params": {"prefix": pre, "suffix": suf, "k": 1, "doc": d, "via_file": j % 4 == 1, "encoding": "ascii" if j % 2 else "utf-8"}, "timeout": 300})
+        if tier == "thorough" and j % 4 == 0:
+            obls.append({"id": "hole%04d.k2.%s" % (j, d), "func": "h_cli", "params": {"prefix": pre, "suffix": suf, "k": 2, "doc": d, "via_file": False, "encoding": "utf-8"}, "timeout": 600})
     for qi, q in enumerate(SEEDS + ERROR_QUERIES):
         for d in DOCS:
             for enc in ("utf-8", "ascii"):
